@@ -188,17 +188,17 @@ theorem ainv_deliverAB (g : GS) (ha : AInv g) : AInv (gnext g .deliverAB) := by
     apply ainv_frame g .deliverAB ha <;> first | rw [hs] | rfl
   | cons m rest =>
     have hs : step g.s .deliverAB =
-        { g.s with a := (Node.step g.s.a (.sending 1 .ready)).1,
+        { g.s with a := (Node.step g.s.a (.sending 1 1 .ready)).1,
                    b := (Node.step g.s.b (.msg 0 [] [] [] (some (m.full, entriesOf m)))).1,
                    wireAB := rest } := by
       simp only [step, hw]
-    have hc : (Node.step g.s.a (.sending 1 .ready)).1.client = Client.sendingChanged g.s.a.client 1 .ready := rfl
-    have hn : (Node.step g.s.a (.sending 1 .ready)).1.now = g.s.a.now := rfl
-    have hq : (Node.step g.s.a (.sending 1 .ready)).1.seq = g.s.a.seq := rfl
-    obtain ⟨P, hP⟩ := sendingChanged_frame g.s.a.client 1 .ready
+    have hc : (Node.step g.s.a (.sending 1 1 .ready)).1.client = Client.sendingChanged g.s.a.client 1 1 .ready := rfl
+    have hn : (Node.step g.s.a (.sending 1 1 .ready)).1.now = g.s.a.now := rfl
+    have hq : (Node.step g.s.a (.sending 1 1 .ready)).1.seq = g.s.a.seq := rfl
+    obtain ⟨P, hP⟩ := sendingChanged_frame g.s.a.client 1 1 .ready
     apply ainv_next g .deliverAB ha
     · rw [hs]
-      show APeer (Node.step g.s.a (.sending 1 .ready)).1.client rest
+      show APeer (Node.step g.s.a (.sending 1 1 .ready)).1.client rest
       rw [hc]
       have hp := (ainv_peer ha)
       obtain ⟨ps, hps, hwire, hv⟩ := hp.one
@@ -207,26 +207,38 @@ theorem ainv_deliverAB (g : GS) (ha : AInv g) : AInv (gnext g .deliverAB) := by
         rcases hwire with ⟨_, e⟩ | ⟨_, m', e⟩
         · cases e
         · cases e; rfl
+      have htr : ∀ ps0, g.s.a.client.peers[1]? = some ps0 →
+          ps0.sending.conn? = none ∨ ps0.sending.conn? = some 1 := by
+        intro ps0 h0
+        rw [hps] at h0; cases h0
+        rcases hwire with ⟨e, _⟩ | ⟨e, _⟩ <;> rw [e]
+        · exact .inl rfl
+        · exact .inr rfl
       constructor
       · intro p hp1
-        rw [sendingChanged_peers]; simp only [hp1, if_false]
+        rw [sendingChanged_peers _ _ _ htr]; simp only [hp1, if_false]
         exact hp.only p hp1
       · refine ⟨{ ps with sending := .ready }, ?_, .inl ⟨rfl, hrest⟩, hv⟩
-        rw [sendingChanged_peers, hps]; simp
+        rw [sendingChanged_peers _ _ _ htr, hps]; simp
+      · intro ps0 h0 x
+        rw [sendingChanged_peers _ _ _ htr, hps] at h0
+        simp only [if_true, Option.map_some, Option.some.injEq] at h0
+        subst h0
+        exact hp.conn1 ps hps x
     · rw [hs]
-      show (Node.step g.s.a (.sending 1 .ready)).1.client.deadline ≤ (Node.step g.s.a (.sending 1 .ready)).1.now + _
+      show (Node.step g.s.a (.sending 1 1 .ready)).1.client.deadline ≤ (Node.step g.s.a (.sending 1 1 .ready)).1.now + _
       rw [hc, hn, hP]; exact ha.deadline
     · rw [hs]
-      show QOk (Node.step g.s.a (.sending 1 .ready)).1.client.queue g.s.storeB
+      show QOk (Node.step g.s.a (.sending 1 1 .ready)).1.client.queue g.s.storeB
       rw [hc, hP]; exact (ainv_queue ha)
     · rw [hs]; exact (ainv_ans ha)
     · rw [hs]
-      show TInv (Node.step g.s.a (.sending 1 .ready)).1.client.tasks (Node.step g.s.a (.sending 1 .ready)).1.client.nextTask
-        (Node.step g.s.a (.sending 1 .ready)).1.client.runq (Node.step g.s.a (.sending 1 .ready)).1.seq _
+      show TInv (Node.step g.s.a (.sending 1 1 .ready)).1.client.tasks (Node.step g.s.a (.sending 1 1 .ready)).1.client.nextTask
+        (Node.step g.s.a (.sending 1 1 .ready)).1.client.runq (Node.step g.s.a (.sending 1 1 .ready)).1.seq _
       rw [hc, hq, hP]
       exact (ainv_task ha)
     · rw [hs]
-      show AAsk (Node.step g.s.a (.sending 1 .ready)).1.client g.asked
+      show AAsk (Node.step g.s.a (.sending 1 1 .ready)).1.client g.asked
       rw [hc, hP]
       exact ⟨(ainv_ask ha).len, (ainv_ask ha).get_asked, (ainv_ask ha).want_asked⟩
 
